@@ -67,4 +67,3 @@ func (g *Gate) Go(w int, fn func()) {
 		g.events <- gateEvent{w, ""}
 	}()
 }
-
